@@ -66,8 +66,10 @@ theorem bnd_clean {incl : Bool} {ba bc : Bnd} (h : cleanBounds incl ba bc = true
     cleanPrim (primOfBnd ba) = true ∧ cleanPrim (primOfBnd bc) = true := by
   cases ba <;> cases bc <;> simp only [cleanBounds, Bool.false_eq_true, Bool.and_eq_true] at h
   · exact ⟨rfl, rfl⟩
+  · exact ⟨rfl, twoDec_finite _ h.1⟩
   · exact ⟨rfl, rfl⟩
   · exact ⟨rfl, rfl⟩
+  · exact ⟨twoDec_finite _ h.1, rfl⟩
   · exact ⟨twoDec_finite _ h.1.1, twoDec_finite _ h.1.2⟩
   · exact ⟨rfl, rfl⟩
 
@@ -330,14 +332,14 @@ theorem toIntB_quote (s : Bytes) (h : (s != [42]) = true) : toIntB (sqlQuote s) 
   rw [sqlQuote_ne_starQ s h]
   simp only [Bool.false_eq_true, ↓reduceIte]
   exact atoi_quote _
-theorem toFltB_quote (s : Bytes) : toFltB (sqlQuote s) = none := by
+theorem toFltB_quote (s : Bytes) (h : (s != [42]) = true) : toFltB (sqlQuote s) = none := by
   unfold toFltB
-  rw [sqlQuote_ne_star s]
+  rw [sqlQuote_ne_starQ s h]
   simp only [Bool.false_eq_true, ↓reduceIte]
   exact parseFloat_quote _
 theorem toFltB_flt (f : F64) (h : f.isFinite = true) : toFltB (fmtG f) = some f := by
   unfold toFltB
-  rw [allNum_ne_star (fmtG_allNum f)]
+  rw [allNum_ne_starQ (fmtG_allNum f)]
   simp only [Bool.false_eq_true, ↓reduceIte]
   exact FloatRT.parseFloat_fmtG f h
 theorem toIntB_flt (f : F64) : toIntB (fmtG f) = atoi (fmtG f) := by
@@ -366,6 +368,17 @@ theorem rangeAstW_clean (x : Ast) (incl : Bool) (ba bc : Bnd) (h : cleanBounds i
     have ti := toInts_of toIntB_starQ (toIntB_int hi h)
     simp only [rangeAstW, primOfBnd, astOfPrim, primTextOf, fmtVPrim, sq, ti, rangeAst, cmpForm, beq_self_eq_true,
       ↓reduceIte]
+  · -- star, flt
+    rename_i hi
+    have e2 := allNum_ne_starQ (fmtG_allNum hi)
+    have hn : atoi (fmtG hi) = none := isSome_false_none (by simpa using h.2)
+    have ti : toInts starQ (fmtG hi) = none := toInts_none (.inr (by rw [toIntB_flt]; exact hn))
+    have tf := toFloats_of toFltB_starQ (toFltB_flt hi (twoDec_finite _ h.1))
+    have k2 : astOfPrim (.flt hi) = some (numTextAst (fmtG hi)) := astOfPrim_flt hi
+    have t2 : primTextOf (.flt hi) = fmtG hi := rfl
+    have k1 : astOfPrim (.str [42]) = some (.str [42]) := rfl
+    have t1 : primTextOf (.str [42]) = starQ := sq
+    simp only [rangeAstW, primOfBnd, k1, k2, t1, t2, ti, tf, rangeAst, cmpForm, beq_self_eq_true, ↓reduceIte]
   · -- int, star
     rename_i lo
     have e1 := allNum_ne_starQ (fmtInt_numCh lo)
@@ -378,6 +391,18 @@ theorem rangeAstW_clean (x : Ast) (incl : Bool) (ba bc : Bnd) (h : cleanBounds i
     have e2 := allNum_ne_starQ (fmtInt_numCh hi)
     have ti := toInts_of (toIntB_int lo h.1) (toIntB_int hi h.2)
     simp only [rangeAstW, primOfBnd, astOfPrim, primTextOf, fmtVPrim, ti, rangeAst, cmpForm, e1, e2,
+      Bool.false_eq_true, ↓reduceIte]
+  · -- flt, star
+    rename_i lo
+    have e1 := allNum_ne_starQ (fmtG_allNum lo)
+    have hn : atoi (fmtG lo) = none := isSome_false_none (by simpa using h.2)
+    have ti : toInts (fmtG lo) starQ = none := toInts_none (.inl (by rw [toIntB_flt]; exact hn))
+    have tf := toFloats_of (toFltB_flt lo (twoDec_finite _ h.1)) toFltB_starQ
+    have k1 : astOfPrim (.flt lo) = some (numTextAst (fmtG lo)) := astOfPrim_flt lo
+    have t1 : primTextOf (.flt lo) = fmtG lo := rfl
+    have k2 : astOfPrim (.str [42]) = some (.str [42]) := rfl
+    have t2 : primTextOf (.str [42]) = starQ := sq
+    simp only [rangeAstW, primOfBnd, k1, k2, t1, t2, ti, tf, rangeAst, cmpForm, e1, beq_self_eq_true,
       Bool.false_eq_true, ↓reduceIte]
   · -- flt, flt
     rename_i lo hi
@@ -405,7 +430,7 @@ theorem rangeAstW_clean (x : Ast) (incl : Bool) (ba bc : Bnd) (h : cleanBounds i
   · -- str, str
     rename_i lo hi
     have ti : toInts (sqlQuote lo) (sqlQuote hi) = none := toInts_none (.inl (toIntB_quote lo h.1.1.1.2))
-    have tf : toFloats (sqlQuote lo) (sqlQuote hi) = none := toFloats_none (.inl (toFltB_quote lo))
+    have tf : toFloats (sqlQuote lo) (sqlQuote hi) = none := toFloats_none (.inl (toFltB_quote lo h.1.1.1.2))
     simp only [rangeAstW, primOfBnd, astOfPrim, primTextOf, ti, tf, rangeAst]
 
 mutual
